@@ -296,6 +296,8 @@ def run(prog: Program, roots=None, prop="C14", rid_prefix="R-C14") -> Results:
         f = prog.func(key)
         r4.instances += 1
         subs = [n for n in walk_no_nested(f.node) if isinstance(n, ast.Subscript) and isinstance(n.value, ast.Name) and n.value.id != "self"]
+        direct = [n for n in walk_no_nested(f.node) if isinstance(n, ast.Subscript) and isinstance(n.value, ast.Call)
+                  and dotted(n.value.func) == "self._resolve_target_set"]  # self._resolve_target_set()[key]: resolved in this very access
         ok = True
         why = ""
         for sub in subs:
@@ -323,7 +325,7 @@ def run(prog: Program, roots=None, prop="C14", rid_prefix="R-C14") -> Results:
         if stores:
             ok = False
             why = f"stores `{norm(stores[0])}`"
-        if not subs and key != "NixSourceCode.__setitem__":
+        if not subs and not direct and key != "NixSourceCode.__setitem__":
             ok = False
             why = "no delegation to the target set found"
         r4.ob(ok, {"site": key})
@@ -435,6 +437,51 @@ def returns_mapping(prog: Program, g, seen=None) -> bool:
                 cur = par
             if ok:
                 continue
+            # `x = y if isinstance(y, Mapping) else None` (or a helper answering "the mapping or None") … `if x is not None: return x`
+            defs_ = [d for d in walk_no_nested(g.node) if (isinstance(d, ast.Assign) and any(norm(t_) == v.id for t_ in d.targets))
+                     or (isinstance(d, ast.NamedExpr) and norm(d.target) == v.id)]
+
+            def mapping_or_none(e, depth=0) -> bool:
+                if isinstance(e, ast.Constant) and e.value is None:
+                    return True
+                if isinstance(e, ast.IfExp):
+                    t_, neg = e.test, False
+                    while isinstance(t_, ast.UnaryOp) and isinstance(t_.op, ast.Not):
+                        t_, neg = t_.operand, not neg
+                    yes, no = (e.orelse, e.body) if neg else (e.body, e.orelse)
+                    if isinstance(t_, ast.Call) and callee(t_) == "isinstance" and len(t_.args) == 2 and norm(t_.args[0]) == norm(yes) \
+                            and any(c in norm(t_.args[1]) for c in MAPPING_CLASSES):
+                        return mapping_or_none(no, depth + 1) or False
+                    return mapping_or_none(e.body, depth + 1) and mapping_or_none(e.orelse, depth + 1)
+                if isinstance(e, ast.Call) and isinstance(e.func, ast.Name) and depth < 3:
+                    h = g
+                    tgt_ = None
+                    while h is not None and tgt_ is None:
+                        tgt_ = h.nested.get(e.func.id)
+                        h = h.parent
+                    tgt_ = tgt_ or (prog.funcs.get(e.func.id) if e.func.id in prog.funcs and prog.funcs[e.func.id].cls is None else None)
+                    if tgt_ is not None:
+                        rr = [x for x in walk_no_nested(tgt_.node) if isinstance(x, ast.Return)]
+                        sub_cfg = CFG(tgt_.node)
+                        for x in rr:
+                            if x.value is None or (isinstance(x.value, ast.Constant) and x.value.value is None):
+                                continue
+                            if mapping_or_none(x.value, depth + 1):
+                                continue
+                            if isinstance(x.value, ast.Name):
+                                ee = edges_establishing(sub_cfg, lambda a, t, _x=x.value.id: t is True and isinstance(a, ast.Call) and callee(a) == "isinstance"
+                                                        and a.args and norm(a.args[0]) == _x and any(c in norm(a.args[1]) for c in MAPPING_CLASSES))
+                                nn = sub_cfg.containing(x)
+                                if ee and nn is not None and sub_cfg.all_paths_pass(nn, cut_edges=ee):
+                                    continue
+                            return False
+                        return bool(rr)
+                return False
+
+            if defs_ and all(mapping_or_none(d.value) for d in defs_):
+                e2 = edges_establishing(cfg, lambda a, t, _x=v.id: (norm(a) == f"{_x} is not None" and t is True) or (norm(a) == _x and t is True))
+                if e2 and node is not None and cfg.all_paths_pass(node, cut_edges=e2):
+                    continue
         return False
     return True
 
